@@ -468,18 +468,6 @@ func (m *model) run(cur, flags int, plan []step, hasTry bool, depth int) (result
 	return rOK, out
 }
 
-func containsCall(p []step) bool {
-	for _, s := range p {
-		if s.Op == opCall || s.Op == opFinCall || s.Op == opTryCall {
-			return true
-		}
-		if s.Op == opLocalTry && containsCall(s.Sub) {
-			return true
-		}
-	}
-	return false
-}
-
 func containsNative(p []step) bool {
 	for _, s := range p {
 		if isNative(s.Op) || containsNative(s.Sub) {
